@@ -583,7 +583,7 @@ pub fn run(ctx: &mut Ctx) {
     }
     crate::fuzz::run_for(ctx);
     for m in ["integer-out-of-range", "control-integer-in-range", "bytesN-wrong-length", "fixed-array-wrong-size", "missing-member", "undeclared-member", "undefined-struct-type", "wrong-json-kind", "malformed-bytes-or-address"] {
-        ctx.floor_abs(m, (n / 40) as u64);
+        ctx.floor_abs(m, (n / 100) as u64);
     }
     for b in ["-1", "-2^(N-1)", "2^N", "2^N+1", "2^256"] {
         ctx.floor_abs(&format!("integer-out-of-range/uint/{b}"), 100);
